@@ -778,28 +778,61 @@ impl<'a, C: Crypto> CaseResponder<'a, C> {
             return Ok(true);
         }
 
+        // ---- Update the cache with the rotated resumption id. ----------
+        //
+        // `SharedSecret` and peer identity are unchanged; only the
+        // `resumption_id` is rotated. `insert_or_update` refreshes the
+        // existing record for this peer and moves it to the tail (MRU).
+        //
+        // We have been working on a *copy* of the record across the waits above. The fabric
+        // might have been removed meanwhile (`RemoveFabric`, fail-safe rollback) - and with it
+        // its sessions (the reserved one of this handshake included) and its resumption
+        // records; its local index might even belong to another fabric by now. So look again,
+        // under the state lock: the resumption only stands if the record is still in the cache
+        // and its fabric is still there.
+        let still_valid = exchange.with_state(|state| {
+            let still_valid = state.fabrics.get(record.fab_idx).is_some()
+                && state
+                    .resumption
+                    .find_by_resumption_id(record.resumption_id.reference().access())
+                    .map(|current| {
+                        current.is_for_peer(record.fab_idx, record.peer_nodeid)
+                            && current.shared_secret.reference().access()
+                                == record.shared_secret.reference().access()
+                    })
+                    .unwrap_or(false);
+
+            if still_valid {
+                state.resumption.insert_or_update(ResumableSession {
+                    fab_idx: record.fab_idx,
+                    peer_nodeid: record.peer_nodeid,
+                    peer_cat_ids: record.peer_cat_ids,
+                    resumption_id: new_rid,
+                    shared_secret: record.shared_secret.clone(),
+                });
+            }
+
+            Ok::<_, Error>(still_valid)
+        })?;
+
+        if !still_valid {
+            warn!(
+                "CASE resumption: fabric {} or its resumption record vanished during the handshake; not resuming",
+                record.fab_idx.get()
+            );
+
+            // The reserved session (if still there) is dropped by `ReservedSession::drop`
+            // since we never call `session.complete()`.
+            exchange.acknowledge().await?;
+            return Ok(true);
+        }
+
         // Mark the session live *before* acknowledging SigmaFinished, so
         // that if the initiator races an application-layer message right
         // after its SigmaFinished, the receive path can already route it
         // (mirrors the ordering in `handle_casesigma3`).
         session.complete();
         exchange.acknowledge().await?;
-
-        // ---- Update the cache with the rotated resumption id. ----------
-        //
-        // `SharedSecret` and peer identity are unchanged; only the
-        // `resumption_id` is rotated. `insert_or_update` refreshes the
-        // existing record for this peer and moves it to the tail (MRU).
-        exchange.with_state(|state| {
-            state.resumption.insert_or_update(ResumableSession {
-                fab_idx: record.fab_idx,
-                peer_nodeid: record.peer_nodeid,
-                peer_cat_ids: record.peer_cat_ids,
-                resumption_id: new_rid,
-                shared_secret: record.shared_secret.clone(),
-            });
-            Ok::<_, Error>(())
-        })?;
         exchange.matter().transport().notify_resumption_dirty();
 
         info!(
